@@ -19,6 +19,20 @@ Case grammar sent to `drv_clientsub`:
     PH <ok|refused|crash:X> <nframes> S <subscribed..> P <paused..> D <delivered..> F <kind:type..> M <Module.subs..>
        I <types whose subscriptions[] holds the module..> A <_sub_all 0|1>          (one per phase of the OP)
     END
+
+Life-cycle cases (second layer of M2, `Model/ClientLife.lean`): ONE `Client` object from its construction on, driven
+through the real `Client.connect` / `disconnect` / subscription API / `read_message` / `send_signal` on sockets made
+by a `socket` shim inside `pyrtma.client`; connections can die (`cut`) with or without the manager noticing.
+    LCASE <id> <ALL_MESSAGE_TYPES> <DYN_MOD_ID_START> <MAX_MODULES> <created module_id> <next_dynamic_mod_id_offset> [ids]
+          (`ids`: CORR compares the identity projection only - outcome, connected, ids, table without subscriptions, cursor)
+    U <type> ...
+    OTHER <mod_id> <unique 0|1>                 every module record that exists before the client's first call
+    LOP connect <allow 0|1> | connectLate <allow> | disconnect | lostRead <noticed 0|1> | lostSend <noticed> | ctlLost <kind> <noticed> <type..>
+        | mgrNotices | sub <OP syntax of above>
+    LPH <ok|refused|notConnected|lost|crash:X> <nframes> S.. P.. D.. F.. M.. I.. A <0|1> C <connected> N <module_id>
+        R <CONNECT_V2.mod_id|-> K <ACK.dest_mod_id|-> H <mod_id of the other records..> T <mod_id:connected:unique:[subs] of
+        the client's own records..> X <next_dynamic_mod_id_offset>
+    END
 """
 from __future__ import annotations
 
@@ -46,6 +60,9 @@ class Pipe:
         self.to_mgr = bytearray()
         self.to_cli = bytearray()
         self.eof = False            # the client side is gone: the manager reads EOF
+        self.cut = ""               # "fin" | "rst": the connection is dead as seen from the client
+        self.accepted = False
+        self.mgr_sent = bytearray() # everything the manager ever wrote to this connection
         self.mgr_end = MgrEnd(self)
         self.cli_end = CliEnd(self)
 
@@ -80,6 +97,7 @@ class MgrEnd:
 
     def sendall(self, b, flags=0):
         self.pipe.to_cli += bytes(b)
+        self.pipe.mgr_sent += bytes(b)
 
     def setsockopt(self, *a):
         pass
@@ -102,18 +120,34 @@ class CliEnd:
     def fileno(self):
         return 2000 + id(self) % 1000
 
+    def dead(self) -> bool:
+        """the client can see that the connection is gone: cut, or the manager has removed (closed) it"""
+        p = self.pipe
+        return bool(p.cut) or (p.accepted and self.world is not None and p.mgr_end not in self.world.mgr.modules)
+
     def readable(self) -> bool:
-        return len(self.pipe.to_cli) > 0
+        return len(self.pipe.to_cli) > 0 or self.dead()
 
     def sendall(self, b, flags=0):
+        if self.pipe.cut:
+            raise ConnectionResetError(104, "Connection reset by peer")
         bb = bytes(b)
         self.pipe.to_mgr += bb
         self.sent.append(bb)
+        if self.world is not None:
+            self.world.cli_log.append(bb)
 
     def _take(self, n: int) -> bytes:
         q = self.pipe.to_cli
-        if len(q) < n and self.world is not None:
+        if len(q) < n and self.world is not None and not self.pipe.cut:
             self.world.pump()
+        if len(q) < n and self.dead():
+            if self.pipe.cut == "rst":
+                del q[:]
+                raise ConnectionResetError(104, "Connection reset by peer")
+            out = bytes(q)
+            del q[:]
+            return out
         if len(q) < n:
             raise WouldBlock()
         out = bytes(q[:n])
@@ -160,6 +194,7 @@ class ListenSock:
 
     def accept(self):
         p = self.backlog.pop(0)
+        p.accepted = True
         return p.mgr_end, ("127.0.0.1", 40000 + len(self.backlog))
 
     def close(self):
@@ -191,6 +226,47 @@ class OrderedSet:
         return len(self.d)
 
 
+class LSock:
+    """what `socket.socket()` returns inside pyrtma.client: unconnected until `connect`, then one end of a new Pipe"""
+
+    def __init__(self, world: "World"):
+        self.world = world
+        self.end: Optional[CliEnd] = None
+        self.closed = False
+        world.cli_socks.append(self)
+
+    def connect(self, addr):
+        p = self.world.new_pipe("client")
+        p.own = True
+        self.end = p.cli_end
+
+    def _e(self) -> CliEnd:
+        if self.end is None or self.closed:
+            raise OSError(9, "Bad file descriptor")
+        return self.end
+
+    def fileno(self):
+        return 3000 + id(self) % 1000
+
+    def readable(self) -> bool:
+        return self._e().readable()
+
+    def sendall(self, b, flags=0):
+        return self._e().sendall(b, flags)
+
+    def recv(self, n, flags=0):
+        return self._e().recv(n, flags)
+
+    def recv_into(self, buffer, nbytes=0, flags=0):
+        return self._e().recv_into(buffer, nbytes, flags)
+
+    def setsockopt(self, *a):
+        pass
+
+    def close(self):
+        self.closed = True
+
+
 class World:
     """one manager + connections"""
 
@@ -214,6 +290,11 @@ class World:
         PM.random = types.SimpleNamespace(shuffle=lambda l: None)
         PM.select = types.SimpleNamespace(select=self.mgr_select)
         PC.select = types.SimpleNamespace(select=self.cli_select)
+        self.cli_log: List[bytes] = []          # every buffer a client socket accepted, in order
+        self.cli_socks: List["LSock"] = []      # every socket object the client code created
+        PC.socket = types.SimpleNamespace(
+            socket=lambda *a, **k: LSock(world), AF_INET=2, SOCK_STREAM=1, IPPROTO_TCP=6, TCP_NODELAY=1,
+            SOL_SOCKET=1, SO_REUSEADDR=2, MSG_WAITALL=MSG_WAITALL, getprotobyname=lambda n: 6)
         PC.time = types.SimpleNamespace(perf_counter=self._cli_clock, sleep=lambda s: None, time=self._cli_clock)
         self._cclock = 0.0
         self.mgr = PM.MessageManager(ip_address="", port=7111, timecode=False, log_level=100, send_msg_timing=False)
@@ -552,3 +633,407 @@ def directed() -> List[Dict[str, Any]]:
         [("subscribe", [ALLT]), ("reconnectLost", []), ("subscribe", [103])],
     ]
     return [{"U": U + [105, 106], "ops": ops, "tag": "directed"} for ops in d]
+
+
+# ------------------------------------------------------------------------------------------------
+# life cycle: one Client object over several sessions (second layer of M2)
+# ------------------------------------------------------------------------------------------------
+class LifePair:
+    """one real `Client` object (never connected yet), the real manager, a raw probe connection and `others`: raw
+    connections of other programs that completed a handshake before the client's first call"""
+
+    def __init__(self, created: int, others: Sequence[Tuple[int, bool]] = (), burn: int = 0):
+        self.w = World()
+        w = self.w
+        cd = w.cd
+        CTL_NAME.update({cd.MT_SUBSCRIBE: "subscribe", cd.MT_UNSUBSCRIBE: "unsubscribe",
+                         cd.MT_PAUSE_SUBSCRIPTION: "pause", cd.MT_RESUME_SUBSCRIPTION: "resume"})
+        self.probe = w.new_pipe("probe")
+        w.pump()
+        self.other_pipes = []
+        for req, allow in others:
+            p = w.new_pipe("other")
+            p.to_mgr += self._v2(req, allow)
+            self.other_pipes.append(p)
+            w.pump()
+        for _ in range(burn):       # move the dynamic-id cursor: connect dynamically and leave again
+            p = w.new_pipe("burn")
+            p.to_mgr += self._v2(0, False)
+            w.pump()
+            p.eof = True
+            w.pump()
+        self.others = [(m.mod_id, int(m.unique)) for m in w.mgr.modules.values()]
+        self.cursor0 = w.mgr.next_dynamic_mod_id_offset
+        self.client = w.PC.Client(module_id=created)
+
+    def _v2(self, req: int, allow: bool) -> bytes:
+        from pyrtma.validators import disable_message_validation
+        cd = self.w.cd
+        m = cd.MDF_CONNECT_V2()
+        h = self.w.mgr.header_cls()
+        with disable_message_validation():
+            m.mod_id = req
+            m.allow_multiple = int(allow)
+            h.msg_type = cd.MT_CONNECT_V2
+            h.num_data_bytes = ctypes_sizeof(m)
+            h.src_mod_id = req
+        return bytes(h) + bytes(m)
+
+    # --- the client's connections ------------------------------------------------------------
+    def own_pipes(self) -> List[Pipe]:
+        return [s.end.pipe for s in self.w.cli_socks if s.end is not None]
+
+    def cur(self) -> Optional[Pipe]:
+        ps = self.own_pipes()
+        return ps[-1] if ps else None
+
+    def mark(self) -> int:
+        return len(self.w.cli_log)
+
+    def wire_since(self, mark: int) -> Tuple[List[str], Optional[int]]:
+        """subscription control frames and the CONNECT_V2.mod_id the client wrote since `mark`"""
+        cd = self.w.cd
+        out: List[str] = []
+        req: Optional[int] = None
+        for mt, hdr, pay in frames_of(b"".join(self.w.cli_log[mark:])):
+            if mt in CTL_NAME:
+                out.append(f"{CTL_NAME[mt]}:{struct.unpack('<i', pay[:4])[0]}")
+            elif mt == cd.MT_CONNECT_V2 and req is None:
+                req = int(cd.MDF_CONNECT_V2.from_buffer_copy(pay).mod_id)
+        return out, req
+
+    def ack_on(self, pipe: Optional[Pipe]) -> Optional[int]:
+        if pipe is None:
+            return None
+        H = self.w.mgr.header_cls
+        for mt, hdr, pay in frames_of(bytes(pipe.mgr_sent)):
+            if mt == self.w.cd.MT_ACKNOWLEDGE:
+                return int(H.from_buffer_copy(hdr).dest_mod_id)
+        return None
+
+    def observe(self, U: Sequence[int]) -> Dict[str, Any]:
+        w = self.w
+        w.pump()
+        pipe = self.cur()
+        if pipe is not None:
+            del pipe.to_cli[:]
+        H = w.mgr.header_cls
+        from pyrtma.validators import disable_message_validation
+        for t in U:
+            h = H()
+            with disable_message_validation():
+                h.msg_type = t
+                h.num_data_bytes = 0
+            self.probe.to_mgr += bytes(h)
+        w.pump()
+        got: List[int] = []
+        if pipe is not None:
+            got = [mt for mt, _, _ in frames_of(bytes(pipe.to_cli))]
+            del pipe.to_cli[:]
+        mod = w.module_of(pipe) if pipe is not None else None
+        c = self.client
+        table = []
+        for p in self.own_pipes():
+            m = w.module_of(p)
+            if m is not None:
+                table.append(f"{m.mod_id}:{int(m.connected)}:{int(m.unique)}:[{','.join(map(str, sorted(m.subs)))}]")
+        return {"S": sorted(c.subscribed_types), "P": sorted(c.paused_subscribed_types),
+                "D": sorted(t for t in set(U) if t in got),
+                "M": sorted(mod.subs) if mod is not None else [],
+                "I": sorted(t for t, s in w.mgr.subscriptions.items() if mod is not None and mod in s),
+                "A": int(bool(c._sub_all)), "C": int(bool(c.connected)), "N": int(c.module_id),
+                "H": sorted(m.mod_id for m in w.mgr.modules.values() if m is not mod),
+                "T": table, "X": w.mgr.next_dynamic_mod_id_offset,
+                "dup": [t for t in set(U) if got.count(t) > 1]}
+
+    # --- events --------------------------------------------------------------------------------
+    def kill(self, noticed: bool, how: str = "fin"):
+        """the current connection dies; with `noticed` the manager reads EOF on it at once"""
+        p = self.cur()
+        p.cut = how
+        if noticed:
+            p.eof = True
+            self.w.pump()
+
+    def mgr_notices(self):
+        cur = self.cur()
+        for p in self.own_pipes():
+            if p is cur and self.client.connected:
+                continue
+            if self.w.module_of(p) is not None:
+                p.eof = True
+        self.w.pump()
+
+
+def ctypes_sizeof(x) -> int:
+    import ctypes
+    return ctypes.sizeof(x)
+
+
+def _lph(status: str, frames: List[str], o: Dict[str, Any], req: Optional[int], ack: Optional[int]) -> str:
+    j = lambda l: " ".join(map(str, l))  # noqa: E731
+    d = lambda v: "-" if v is None else str(v)  # noqa: E731
+    return (f"LPH {status} {len(frames)} S {j(o['S'])} P {j(o['P'])} D {j(o['D'])} F {j(sorted(frames))} "
+            f"M {j(o['M'])} I {j(o['I'])} A {o['A']} C {o['C']} N {o['N']} R {d(req)} K {d(ack)} H {j(o['H'])} "
+            f"T {j(o['T'])} X {o['X']}")
+
+
+def _lstatus(EX, e: Optional[BaseException]) -> str:
+    if e is None:
+        return "ok"
+    if isinstance(e, EX.InvalidSubscription):
+        return "refused"
+    if isinstance(e, EX.NotConnectedError):
+        return "notConnected"
+    if isinstance(e, EX.ConnectionLost):
+        return "lost"
+    if isinstance(e, EX.AcknowledgementTimeout):
+        return "ackTimeout"
+    return f"crash:{type(e).__name__}"
+
+
+def _call(f) -> Optional[BaseException]:
+    try:
+        f()
+        return None
+    except C.MachineryError:
+        raise
+    except Exception as e:  # noqa: BLE001  every exception of the code under test is an observation
+        return e
+
+
+SUB_CALL = {"subscribe": "subscribe", "unsubscribe": "unsubscribe", "pause": "pause_subscription",
+            "resume": "resume_subscription"}
+
+
+def run_life_case(cid: str, case: Dict[str, Any]) -> List[str]:
+    """case: created, others [(req id, allow)], burn, U [types], ops [(kind, args...)]"""
+    from pyrtma import exceptions as EX
+    logging.getLogger().setLevel(logging.CRITICAL + 10)
+    lp = LifePair(case["created"], case.get("others", ()), case.get("burn", 0))
+    c = lp.client
+    try:
+        c.logger.enable_console = False
+    except Exception:  # noqa: BLE001
+        pass
+    cd = lp.w.cd
+    U = case["U"]
+    lines = [f"LCASE {cid} {cd.ALL_MESSAGE_TYPES} {cd.DYN_MOD_ID_START} {cd.MAX_MODULES} {case['created']} {lp.cursor0}"
+             + (" ids" if case.get("proj") == "ids" else ""),
+             "U " + " ".join(map(str, U))]
+    lines += [f"OTHER {i} {u}" for i, u in lp.others]
+    flip = 0
+    with warnings.catch_warnings():
+        warnings.simplefilter("ignore")
+        for op in case["ops"]:
+            kind = op[0]
+            mark = lp.mark()
+            n_socks = len(lp.own_pipes())
+
+            def emit(err, ack_from_new=True):
+                fr, req = lp.wire_since(mark)
+                ps = lp.own_pipes()
+                ack = lp.ack_on(ps[-1]) if (len(ps) > n_socks and ack_from_new) else None
+                lines.append(_lph(_lstatus(EX, err), fr, lp.observe(U), req, ack))
+
+            if kind == "connect":
+                lines.append(f"LOP connect {int(op[1])}")
+                emit(_call(lambda: c.connect("h:1", False, False, bool(op[1]))))
+            elif kind == "connectLate":
+                # the manager is busy: it gets to the new connection only after the client's 3 s are over
+                lines.append(f"LOP connectLate {int(op[1])}")
+                real_pump = lp.w.pump
+                lp.w.pump = lambda: None
+                try:
+                    err = _call(lambda: c.connect("h:1", False, False, bool(op[1])))
+                finally:
+                    lp.w.pump = real_pump
+                lp.w.pump()
+                emit(err)
+            elif kind == "disconnect":
+                lines.append("LOP disconnect")
+                emit(_call(c.disconnect))
+            elif kind in ("lostRead", "lostSend"):
+                lines.append(f"LOP {kind} {int(op[1])}")
+                flip += 1
+                if c.connected:
+                    lp.kill(bool(op[1]), "rst" if flip % 2 else "fin")
+                if kind == "lostRead":
+                    emit(_call(lambda: c.read_message(timeout=0.05)))
+                else:
+                    emit(_call(lambda: c.send_signal(1234)))
+            elif kind == "ctlLost":
+                _, k, noticed, args = op
+                lines.append(f"LOP ctlLost {k} {int(noticed)} " + " ".join(map(str, args)))
+                was = c.connected
+                if was:
+                    lp.cur().cut = "rst"
+                err = _call(lambda: getattr(c, SUB_CALL[k])(list(args)))
+                if was:
+                    if isinstance(err, EX.ConnectionLost):
+                        if noticed:
+                            lp.cur().eof = True
+                            lp.w.pump()
+                    else:
+                        lp.cur().cut = ""       # the call never touched the socket
+                emit(err)
+            elif kind == "mgrNotices":
+                lines.append("LOP mgrNotices")
+                lp.mgr_notices()
+                emit(None)
+            elif kind == "sub":
+                _, k, args = op
+                lines.append(f"LOP sub {k} " + " ".join(map(str, args)))
+                if k in ("subCtx", "pauseCtx"):
+                    cm = (c.subscription_context if k == "subCtx" else c.paused_subscription_context)(list(args))
+                    err = _call(cm.__enter__)
+                    emit(err)
+                    if err is None:
+                        mark = lp.mark()
+                        emit(_call(lambda: cm.__exit__(None, None, None)))
+                elif k in SUB_CALL:
+                    emit(_call(lambda: getattr(c, SUB_CALL[k])(list(args))))
+                elif k == "unsubAll":
+                    emit(_call(c.unsubscribe_from_all))
+                elif k == "pauseAll":
+                    emit(_call(c.pause_all_subscriptions))
+                elif k == "resumeAll":
+                    emit(_call(c.resume_all_subscriptions))
+                elif k == "reconnect":
+                    emit(_call(c.disconnect))
+                    mark = lp.mark()
+                    n_socks = len(lp.own_pipes())
+                    emit(_call(lambda: c.connect("h:1")))
+                else:
+                    raise C.MachineryError(f"unknown sub op {k}")
+            else:
+                raise C.MachineryError(f"unknown life op {kind}")
+    lines.append("END")
+    c._connected = False
+    return lines
+
+
+# --- life-cycle generators ---------------------------------------------------------------------
+LIFE_ALPHABET: List[Tuple] = [
+    ("connect", 0), ("connect", 1), ("disconnect",), ("lostRead", 0), ("lostRead", 1), ("lostSend", 0), ("lostSend", 1),
+    ("mgrNotices",), ("ctlLost", "subscribe", 0, [103]), ("ctlLost", "pause", 1, [101]), ("ctlLost", "unsubscribe", 0, []),
+    ("sub", "subscribe", [101]), ("sub", "subscribe", [ALLT]), ("sub", "pause", [101]), ("sub", "subCtx", [102, 103]),
+    ("sub", "unsubAll", []), ("sub", "reconnect", []),
+]
+LIFE_PREFIXES: List[List[Tuple]] = [
+    [],
+    [("connect", 0), ("sub", "subscribe", [101, 102]), ("sub", "pause", [102])],
+    [("connect", 1), ("sub", "subscribe", [ALLT])],
+]
+LIFE_SETUPS = [  # (created id, others [(requested id, allow_multiple)], dynamic connects burnt before)
+    (0, [], 0), (12, [], 0), (0, [(0, False), (0, False)], 1), (12, [(12, True)], 0), (0, [(0, False)], 99),
+]
+
+
+def life_exhaustive(seqlen: int):
+    U = T + [FRESH]
+    tail = [("connect", 0), ("sub", "subscribe", [103]), ("lostRead", 1)]
+    for created, others, burn in LIFE_SETUPS:
+        for pre in LIFE_PREFIXES:
+            for n in range(1, seqlen + 1):
+                if n == seqlen and (burn or others) and seqlen > 2:
+                    continue        # the longest sequences only on the two plain setups
+                for seq in itertools.product(LIFE_ALPHABET, repeat=n):
+                    yield {"life": True, "created": created, "others": others, "burn": burn, "U": U,
+                           "ops": pre + list(seq) + tail, "tag": f"life-seq{n}"}
+
+
+def life_rand_case(rng, n_ops: int = 25) -> Dict[str, Any]:
+    pool = [101, 102, 103, 105, 106]
+    U = pool + [FRESH]
+    created = rng.choice([0, 0, 12, 57, 99])
+    others: List[Tuple[int, bool]] = []
+    for _ in range(rng.choice([0, 0, 1, 2, 3])):
+        r = rng.random()
+        if r < 0.5:
+            others.append((0, rng.random() < 0.3))
+        elif r < 0.8:
+            others.append((created or 31, rng.random() < 0.6))
+        else:
+            others.append((rng.choice([1, 12, 57, 100]), rng.random() < 0.5))
+    burn = rng.choice([0, 0, 0, 1, 5, 98, 99, 100, 101])
+    ops: List[Tuple] = []
+
+    def types():
+        n = rng.choice([0, 1, 1, 2, 3])
+        l = [rng.choice(pool) for _ in range(n)]
+        if rng.random() < 0.12:
+            l.insert(rng.randint(0, len(l)), ALLT)
+        return l
+
+    for _ in range(rng.randint(3, n_ops)):
+        r = rng.random()
+        if r < 0.015:
+            ops.append(("connectLate", int(rng.random() < 0.4)))
+        elif r < 0.18:
+            ops.append(("connect", int(rng.random() < 0.4)))
+        elif r < 0.25:
+            ops.append(("disconnect",))
+        elif r < 0.31:
+            ops.append(("lostRead", int(rng.random() < 0.5)))
+        elif r < 0.37:
+            ops.append(("lostSend", int(rng.random() < 0.5)))
+        elif r < 0.43:
+            ops.append(("ctlLost", rng.choice(list(SUB_CALL)), int(rng.random() < 0.5), types()))
+        elif r < 0.49:
+            ops.append(("mgrNotices",))
+        elif r < 0.53:
+            ops.append(("sub", rng.choice(["unsubAll", "pauseAll", "resumeAll"]), []))
+        elif r < 0.55:
+            ops.append(("sub", "reconnect", []))
+        else:
+            ops.append(("sub", rng.choice(LIST_OPS), types()))
+    return {"life": True, "created": created, "others": others, "burn": burn, "U": U, "ops": ops, "tag": "life-random"}
+
+
+def life_directed() -> List[Dict[str, Any]]:
+    U = T + [FRESH]
+    sub = lambda k, l: ("sub", k, l)  # noqa: E731
+    d: List[Tuple[int, List[Tuple[int, bool]], int, List[Tuple]]] = [
+        # seeded C08d / C02c: the sets survive a lost connection and must be gone after the next connect
+        (12, [], 0, [("connect", 0), sub("subscribe", [101]), ("lostRead", 1), ("connect", 0)]),
+        (12, [], 0, [("connect", 0), sub("subscribe", [ALLT]), ("lostSend", 1), ("connect", 0), sub("subscribe", [102])]),
+        (0, [], 0, [("connect", 0), sub("subscribe", [101]), sub("pause", [101]), ("ctlLost", "subscribe", 1, [102]),
+                    ("connect", 0), sub("resumeAll", [])]),
+        # seeded C06d: a dynamic client must ask for id 0 again, however the session ended; the old id may still be held
+        (0, [], 0, [("connect", 0), ("lostRead", 0), ("connect", 0), ("mgrNotices",), ("connect", 0)]),
+        (0, [(0, False)], 0, [("connect", 0), ("lostSend", 0), ("connect", 0), ("disconnect",), ("connect", 0)]),
+        (0, [], 0, [("connect", 0), ("connect", 0), ("connect", 1), ("disconnect",), ("connect", 0)]),
+        # a unique static id whose old connection the manager has not noticed yet: refused until it does
+        (12, [], 0, [("connect", 0), sub("subscribe", [101]), ("lostRead", 0), ("connect", 0), sub("subscribe", [102]),
+                     ("mgrNotices",), ("connect", 0), sub("subscribe", [103])]),
+        (12, [], 0, [("connect", 1), ("lostRead", 0), ("connect", 1), ("connect", 0)]),
+        (12, [(12, True)], 0, [("connect", 0), ("connect", 1), sub("subscribe", [101]), ("connect", 1)]),
+        # every dynamic id taken: refused
+        (0, [], 100, [("connect", 0)]),
+        # open finding C02-F4: the handshake is answered too late; the object stays "connected" with the old sets
+        (12, [], 0, [("connect", 0), sub("subscribe", [101, 102]), ("lostRead", 1), ("connectLate", 0), sub("subscribe", [103]),
+                     ("connect", 0)]),
+        (0, [], 0, [("connect", 0), sub("subscribe", [ALLT]), ("lostSend", 0), ("connectLate", 0), ("disconnect",), ("connect", 0)]),
+        (0, [], 0, [("connectLate", 0), sub("subscribe", [101]), ("connectLate", 1), ("connect", 0)]),
+        # calls on a client that was never connected / is disconnected
+        (0, [], 0, [sub("subscribe", [101]), sub("subCtx", [101]), ("lostRead", 0), ("disconnect",), ("mgrNotices",),
+                    ("connect", 0), ("disconnect",), sub("unsubAll", []), ("ctlLost", "pause", 0, [101])]),
+    ]
+    return [{"life": True, "created": c, "others": o, "burn": b, "U": U, "ops": ops, "tag": "life-directed"}
+            for c, o, b, ops in d]
+
+
+def life_id_cases(rng, n_random: int) -> List[Dict[str, Any]]:
+    """the life-cycle histories as C06 uses them (identity projection): the directed ones, every sequence of <= 2
+    identity-relevant operations on every set-up, random histories"""
+    ident = [op for op in LIFE_ALPHABET if op[0] != "sub" or op[1] in ("reconnect",)] + [("sub", "subscribe", [101])]
+    out = [dict(c, proj="ids") for c in life_directed()]
+    U = T + [FRESH]
+    for created, others, burn in LIFE_SETUPS + [(57, [(57, False)], 3), (0, [(0, True), (12, False)], 98)]:
+        for n in (1, 2):
+            for seq in itertools.product(ident, repeat=n):
+                out.append({"life": True, "proj": "ids", "created": created, "others": others, "burn": burn, "U": U,
+                            "ops": [("connect", 0)] + list(seq) + [("connect", 1), ("connect", 0)], "tag": f"life-id-seq{n}"})
+    out += [dict(life_rand_case(rng, 20), proj="ids") for _ in range(n_random)]
+    return out
